@@ -82,6 +82,9 @@ fn main() {
             }
         }
     }
+    if prop != "C19" {
+        vh::driver::start_hang_watchdog(&prop);
+    }
     let ctx = CheckCtx::new(&prop, tier, seed, false);
     if let Some(runs) = fuzz_only {
         // development aid: only the libFuzzer campaign of this property (evidence is not written)
